@@ -5,6 +5,7 @@ mod mk;
 mod deposits;
 mod select;
 mod builder;
+mod address;
 
 fn main() {
     let argv: Vec<String> = std::env::args().collect();
@@ -20,6 +21,7 @@ fn main() {
         "deposits" => deposits::main(&a),
         "select" => select::main(&a),
         "builder" => builder::main(&a),
+        "address" => address::main(&a),
         d => {
             eprintln!("unknown driver {}", d);
             std::process::exit(2);
